@@ -7,7 +7,8 @@ from . import core
 def check_file(relpath, timeout=1800):
     path = os.path.join(core.HERE, relpath)
     t0 = time.time()
-    if shutil.which("lean") is None:
+    exe = shutil.which("lean") or next((c for c in ("/opt/veriftools/lean/bin/lean", "/usr/local/bin/lean") if os.path.exists(c)), None)
+    if exe is None:
         return core.unknown("lean", "lean is not on PATH")
     src = open(path).read()
     code = re.sub(r"/-.*?-/", "", src, flags=re.S)
@@ -16,7 +17,7 @@ def check_file(relpath, timeout=1800):
     if bad:
         return core.Result(core.ERROR, "lean", "%s contains %s: not a proof" % (relpath, bad))
     try:
-        p = subprocess.run(["lean", path], capture_output=True, text=True, timeout=timeout, cwd=os.path.dirname(path))
+        p = subprocess.run([exe, path], capture_output=True, text=True, timeout=timeout, cwd=os.path.dirname(path))
     except subprocess.TimeoutExpired:
         return core.unknown("lean", "lean timed out after %d s" % timeout)
     out = (p.stdout + p.stderr).strip()
